@@ -5,7 +5,12 @@
      K <site> <ncols> v.. <hex key>                         one key of a real encoder
      G <tag> <ncols> <nrows> {id v..} # {v.. count nids ids..}      results of ONE batch
      B <tag> <ncols> <nrows> {id v..} # {nids ids..}                batches of a keyed window
-     T <tag> <N> <ncols> <nrows> {id v..} # {v.. count first last nids ids..}  per-key every N-th row fires *)
+     T <tag> <N> <ncols> <nrows> {id v..} # {v.. count first last nids ids..}  per-key every N-th row fires
+     N <tag> <T|G> <N> <ncols> <nrows> {id v..}                     output naming (harness/c04names.go):
+       # <nquals> {qual} <ncols> {gf} <nsel> {expr alias} <naggs> {agg} <nsys> {sys}      the query's names (hex)
+       # { <nnames> {name} <ngv> {name v} count first last nids ids.. }                   every column of every row
+       the output names are computed by the MODEL (kn_outs); each row's exact name set is judged by the extracted
+       chk_row_names, then the tuple read under the output names goes through the T / G judgement *)
 open Model
 open Util
 
@@ -80,6 +85,106 @@ let counting_verdict (n : int) (rows : krow list) (impl : z list list) : string 
   let model = List.map (fun (_, rs) -> List.map (fun r -> r.krid) rs) (cw_run (nat_of_int n) rows) in
   if model <> impl then Some ("diff counting_batches model=" ^ show_batches model) else None
 
+(* ---- output naming (N lines) ---------------------------------------------------------------- *)
+let string_of_nclause = function NColumnMissing -> "column_missing" | NColumnExtra -> "column_extra"
+
+let show_name (b : n list) : string =
+  if b = [] then "''" else
+  String.concat "" (List.map (fun x -> let c = int_of_n x in
+                                if c > 32 && c < 127 && c <> 124 && c <> 44 then String.make 1 (Char.chr c)
+                                else Printf.sprintf "\\x%02x" c) b)
+let show_names (l : n list list) : string = if l = [] then "-" else String.concat "," (List.map show_name l)
+
+let take_n (toks : string list) : string list * string list =
+  match toks with n :: r -> take (int_of_string n) r | [] -> failwith "short section"
+
+let rec pair_up = function a :: b :: r -> (a, b) :: pair_up r | [] -> [] | _ -> failwith "odd pairs"
+
+type nres = { nr_names : n list list; nr_gv : (n list * kvalue) list; nr_res : gres }
+
+let rec parse_nresults (toks : string list) : (n list list * (n list * string) list * string list) list =
+  match toks with
+  | [] -> []
+  | _ ->
+      let (names, r) = take_n toks in
+      (match r with
+       | ngv :: r1 ->
+           let (gv, r2) = take (2 * int_of_string ngv) r1 in
+           (match r2 with
+            | c :: f :: l :: r3 ->
+                let (ids, r4) = take_n r3 in
+                (List.map bytes_of_hex names, List.map (fun (a, b) -> (bytes_of_hex a, b)) (pair_up gv), c :: f :: l :: ids)
+                :: parse_nresults r4
+            | _ -> failwith "short nresult")
+       | [] -> failwith "short nresult")
+
+let same_name_set (a : n list list) (b : n list list) : bool =
+  List.sort_uniq compare a = List.sort_uniq compare b
+
+(* the judgement of a "per key every N-th row fires" observation / of the results of one batch *)
+let judge_T (n : int) (rows : krow list) (res : gres list) : string option =
+  match chk_C09_sql (nat_of_int n) rows res with
+  | Some c -> Some ("chk " ^ string_of_gclause c)
+  | None -> counting_verdict n rows (List.map (fun g -> g.g_ids) res)
+
+let judge_G (rows : krow list) (res : gres list) : string option =
+  match chk_C04 rows res with
+  | Some c -> Some ("chk " ^ string_of_gclause c)
+  | None ->
+      let model = sort_by_first (List.map (fun (t, rs) -> (t, List.map (fun r -> r.krid) rs)) (kgroup rows)) in
+      let impl = sort_by_first (List.map (fun g -> (g.g_tuple, g.g_ids)) res) in
+      if List.length model <> List.length impl
+         || not (List.for_all2 (fun (t, a) (u, b) -> ktuple_eqb t u && a = b) model impl)
+      then Some ("diff groups model=" ^ show_batches (List.map snd model)) else None
+
+let handle_names (mode : string) (n : int) (ncols : int) (rows : krow list) (q : string list) (obs : string list) : string =
+  let (quals, q1) = take_n q in
+  let (gfs, q2) = take_n q1 in
+  let (sel, q3) = (match q2 with k :: r -> take (2 * int_of_string k) r | [] -> failwith "short naming") in
+  let (aggs, q4) = take_n q3 in
+  let (sys, _) = take_n q4 in
+  let quals = List.map bytes_of_hex quals and gfs = List.map bytes_of_hex gfs
+  and sel = List.map (fun (a, b) -> (bytes_of_hex a, bytes_of_hex b)) (pair_up sel)
+  and aggs = List.map bytes_of_hex aggs and sys = List.map bytes_of_hex sys in
+  if List.length gfs <> ncols then "bad line" else
+  (* the model: names of the grouping columns, and the columns of a projected row (no value is looked at) *)
+  let outs = kn_outs sel quals gfs in
+  let mnames = List.map fst (kn_result gfs outs (List.map (fun _ -> KNull) gfs) (List.map (fun a -> (a, KNull)) aggs)) in
+  let results = parse_nresults obs in
+  let bad = List.filter_map (fun (names, _, tail) ->
+      match chk_row_names outs aggs sys names with
+      | None -> None
+      | Some c ->
+          let user = List.filter (fun x -> not (List.mem x sys)) names in
+          Some (Printf.sprintf "chk %s missing=%s extra=%s row_ids=%s model_agrees=%s" (string_of_nclause c)
+                  (show_names (row_names_missing outs aggs names)) (show_names (row_names_extra outs aggs sys names))
+                  (match tail with _ :: _ :: _ :: ids -> String.concat "," ids | _ -> "?")
+                  (b01 (same_name_set user mnames)))) results in
+  match bad with
+  | v :: _ -> v
+  | [] ->
+      (* (here every row has exactly the demanded names; by C04_projected_row_passes_checker so has the model
+         unless the query is outside kn_compatible, where the model must still agree with the implementation) *)
+      let disagree = List.filter (fun (names, _, _) ->
+          not (same_name_set (List.filter (fun x -> not (List.mem x sys)) names) mnames)) results in
+      if disagree <> [] then "diff row_names model=" ^ show_names mnames else
+      let res = List.map (fun (_, gv, tail) ->
+          let tuple = List.map (fun o -> match List.assoc_opt o gv with
+                                         | Some tok -> (match parse_value tok with Some v -> v | None -> KNull)
+                                         | None -> KStr (bytes_of_hex "3f616273656e74")) outs in
+          match tail with
+          | c :: f :: l :: ids -> { g_tuple = tuple; g_count = zs c; g_ids = List.map zs ids; g_first = zs f; g_last = zs l }
+          | _ -> failwith "short nresult") results in
+      let verdict = (match mode with "T" -> judge_T n rows res | "G" -> judge_G rows res | _ -> Some "bad line") in
+      match verdict with
+      | Some v -> v
+      | None ->
+          (* non-trivial: a renamed column, a NULL/missing value in a renamed column, >= 2 tuples, some result *)
+          let renamed = List.mapi (fun i o -> (i, o <> List.nth gfs i)) outs in
+          let null_in_renamed = List.exists (fun r ->
+              List.exists (fun (i, rn) -> rn && (match List.nth r.kvals i with None | Some KNull -> true | _ -> false)) renamed) rows in
+          if null_in_renamed && distinct_tuples rows >= 2 && res <> [] then "ok nt" else "ok"
+
 let handle (toks : string list) : string =
   match toks with
   | "K" :: site :: ncols :: rest ->
@@ -142,6 +247,12 @@ let handle (toks : string list) : string =
                 (match counting_verdict n rows (List.map (fun g -> g.g_ids) res) with
                  | Some d -> d
                  | None -> if distinct_tuples rows >= 2 && res <> [] then "ok nt" else "ok"))
+       | _ -> "bad line")
+  | "N" :: _tag :: mode :: n :: ncols :: nrows :: rest ->
+      let n = int_of_string n and ncols = int_of_string ncols in
+      let (rows, r) = parse_rows ncols (int_of_string nrows) rest in
+      (match Win.split_hash r with
+       | [ []; q; obs ] -> handle_names mode n ncols rows q obs
        | _ -> "bad line")
   | _ -> "bad line"
 
